@@ -276,6 +276,7 @@ type Worker struct {
 	journal  []journalEnt
 	mergeDepthAbort bool
 	inInit          bool
+	randSeq         int
 	stubs           map[string]Value
 	models          []*evalModel
 	CacheHits       int
@@ -346,6 +347,7 @@ func (w *Worker) runPath(j Job) {
 	w.globals = map[*ssa.Global]*Value{}
 	w.nextBack = 0
 	w.depth = 0
+	w.randSeq = 0
 	w.stubs = nil
 	w.taskSeq, w.curTask = 0, 0
 	w.cfg = w.ex.cfg
